@@ -88,11 +88,13 @@ int main(int argc,char**argv){
   json::Array fns;
   for (auto &F:*M){ json::Object fo; fo["name"]=F.getName().str(); fo["decl"]=F.isDeclaration(); fo["ret"]=tyStr(F.getReturnType()); fo["internal"]=F.hasLocalLinkage(); fo["noreturn"]=F.doesNotReturn();
     json::Array ps; DITypeRefArray TA; bool hasTA=false; if (auto*SP=F.getSubprogram()){ TA=SP->getType()->getTypeArray(); hasTA=true; fo["file"]=SP->getFilename().str(); fo["line"]=(int64_t)SP->getLine(); }
-    for (auto &A:F.args()){ json::Object p; p["t"]=tyStr(A.getType()); unsigned i=A.getArgNo()+1; p["pointee_const"]= hasTA && i<TA.size() ? pointeeConst(TA[i]) : false; p["name"]=A.getName().str(); if (hasTA && i<TA.size()) p["di"]=diTypeStr(TA[i]); ps.push_back(std::move(p)); }
+    /* a struct returned by value is lowered to a hidden first parameter (sret): the source-level parameters are shifted by one */
+    const unsigned sretShift = (F.arg_size() > 0 && F.hasParamAttribute(0, Attribute::StructRet)) ? 1 : 0; fo["sret"]=(bool)sretShift;
+    for (auto &A:F.args()){ json::Object p; p["t"]=tyStr(A.getType()); unsigned i=A.getArgNo()+1-sretShift; if (sretShift && A.getArgNo()==0) i=TA.size()+1000; p["pointee_const"]= hasTA && i<TA.size() ? pointeeConst(TA[i]) : false; p["name"]=A.getName().str(); if (hasTA && i<TA.size()) p["di"]=diTypeStr(TA[i]); ps.push_back(std::move(p)); }
     fo["params"]=std::move(ps);
     if (!F.isDeclaration()){ MST.incorporateFunction(F); json::Array bs; C.ids.clear(); { int n=0; for(auto&B:F){ C.ids[&B]=n++; } int m=0; for(auto&B:F) for(auto&I:B){ if(isa<DbgInfoIntrinsic>(I)) continue; C.ids[&I]= I.getType()->isVoidTy()? -1 : m++; } }
       // arg names from dbg.declare/value are gone after mem2reg; use DILocalVariable via dbg.value
-      std::map<unsigned,std::string> argNames; for(auto&B:F) for(auto&I:B) if(auto*DV=dyn_cast<DbgVariableIntrinsic>(&I)){ auto*Var=DV->getVariable(); if(Var&&Var->getArg()&&!(DV->getDebugLoc()&&DV->getDebugLoc().getInlinedAt())) argNames[Var->getArg()-1]=Var->getName().str(); }
+      std::map<unsigned,std::string> argNames; for(auto&B:F) for(auto&I:B) if(auto*DV=dyn_cast<DbgVariableIntrinsic>(&I)){ auto*Var=DV->getVariable(); if(Var&&Var->getArg()&&!(DV->getDebugLoc()&&DV->getDebugLoc().getInlinedAt())) argNames[Var->getArg()-1+sretShift]=Var->getName().str(); }
       std::map<const Value*,std::string> allocaNames; for(auto&B:F) for(auto&I:B) if(auto*DD=dyn_cast<DbgDeclareInst>(&I)){ if(auto*AI=dyn_cast_or_null<AllocaInst>(DD->getAddress())) if(DD->getVariable()) { allocaNames[AI]=DD->getVariable()->getName().str(); } }
       json::Object an; for(auto&kv:argNames) an[std::to_string(kv.first)]=kv.second; fo["argnames"]=std::move(an);
       for (auto&B:F){ json::Object bo; bo["id"]=(int64_t)C.id(&B); json::Array is;
